@@ -11,6 +11,7 @@ import (
 	"mime"
 	"net/http"
 	"net/http/httptest"
+	"reflect"
 	"regexp"
 	"strings"
 	"sync"
@@ -99,6 +100,8 @@ type c20Group struct {
 	MuxLogger  bool   `json:"mux_logger"`
 	doc        *mocrelay.NIP11
 	hasDefault bool
+	earlier    []*mocrelay.NIP11 // deep copies of the configurations that were replaced
+	Changes    []string          `json:"configuration_changes,omitempty"`
 	rec        *c20Rec
 	mux        *mocrelay.ServeMux
 	relay      *mocrelay.Relay
@@ -581,7 +584,7 @@ func (g *c20Group) run(rep *vk.Report, q *c20Req) {
 		rep.Count("route_nip11/"+g.Config, 1)
 		if g.doc != nil && o.BodyVisible {
 			rep.Count("documents_compared", 1)
-			rep.Seen("served_doc_shape", c20DocShape(g.doc))
+			g.seenServed(rep)
 		}
 		if rep.WantSample() && g.doc != nil && q.Transport == "wire" && o.BodyVisible {
 			rep.Sample(map[string]any{"config": g.Config, "request": q.Method + " " + q.Path, "accept": q.Header.Get("Accept"), "status": o.Status,
@@ -678,7 +681,7 @@ func (g *c20Group) runDial(rep *vk.Report, q *c20Req, report func([]c20Fault, an
 
 func TestVerif_C20(t *testing.T) {
 	rep := vk.NewReport(t, "C20", "exploration")
-	rep.Rule = "requests: groups of 20 requests against one ServeMux behind httptest (configuration = group index mod 4: with/without NIP-11 document x with/without default handler; generated document, marker default handler with status 200/203/302/404, mux logger on/off); each request draws Upgrade in {none, full handshake by websocket.Dial, hand-written complete handshake, websocket with one handshake defect, other token} x Accept in {absent, application/nostr+json, near forms (lists, parameters, case; not claimed), other media types} x 6 methods x 8 paths x {real connection, ServeHTTP with recorder}; non-trivial = every request; distinct = distinct (configuration, upgrade class, accept class, method, transport). documents: generated NIP11 values (every field independently zero/set, limitation/retention/fees absent, empty or filled, nil and empty slices, kind entries single/ascending/descending/zero-ended) checked as decode(encode(v)) = v, reference-read(encode(v)) = v, and for independently written texts t (key order, whitespace, escapes, null/explicit zero/omitted members, [k,k] pairs): decode(t) = v and decode(encode(decode(t))) = decode(t); distinct = distinct (field presence mask, kind forms)"
+	rep.Rule = "requests: groups of 20 requests against one ServeMux behind httptest (configuration = group index mod 4: with/without NIP-11 document x with/without default handler; generated document, marker default handler with status 200/203/302/404, mux logger on/off); each request draws Upgrade in {none, full handshake by websocket.Dial, hand-written complete handshake, websocket with one handshake defect, other token} x Accept in {absent, application/nostr+json, near forms (lists, parameters, case; not claimed), other media types} x 6 methods x 8 paths x {real connection, ServeHTTP with recorder}; non-trivial = every request; distinct = distinct (configuration, upgrade class, accept class, method, transport). documents: generated NIP11 values (every field independently zero/set, limitation/retention/fees absent, empty or filled, nil and empty slices, kind entries single/ascending/descending/zero-ended) checked as decode(encode(v)) = v, reference-read(encode(v)) = v, and for independently written texts t (key order, whitespace, escapes, null/explicit zero/omitted members, [k,k] pairs): decode(t) = v and decode(encode(decode(t))) = decode(t); kind bounds include values around 2^31, 2^53, 2^62, MaxInt64, MinInt64 and negatives, single and in pairs whose ends differ by 1; configuration changes: the same *NIP11 value held by the mux is altered in place (whole fields and elements of kinds/limits/nips/fees), strictly between requests, before the first request or after earlier ones, and the next answer must equal the value as it is then; distinct = distinct (field presence mask, kind forms)"
 	defer rep.Finish()
 
 	// ---- (a) JSON round trip -------------------------------------------------
@@ -694,11 +697,17 @@ func TestVerif_C20(t *testing.T) {
 			for _, f := range strings.Split(shape[strings.Index(shape, "/")+1:], ",") {
 				if f != "" {
 					rep.Seen("kind_forms_in_values", f)
+					if strings.HasPrefix(f, "huge-") {
+						rep.Count("values_with_"+f, 1)
+					}
 				}
 			}
 			text, forms := c20Text(r, d)
 			for f := range forms {
 				rep.Seen("kind_forms_in_texts", f)
+				if strings.HasPrefix(f, "text-huge-") {
+					rep.Count("texts_with_"+f, 1)
+				}
 			}
 			w := func(extra map[string]any) map[string]any {
 				m := map[string]any{"document_written_by_the_reference_writer": text, "value": fmt.Sprintf("%+v", c20Flat(d))}
@@ -763,7 +772,14 @@ func TestVerif_C20(t *testing.T) {
 		for k := range reqs {
 			reqs[k] = c20GenReq(r, fmt.Sprintf("g%d-%d", gi, k))
 		}
+		if g.doc != nil && gi%8 >= 4 { // configuration changed before the very first request
+			g.changeAndFetch(rep, r, 1)
+		}
 		vk.ParallelW(4, perGroup, func(k int) { g.run(rep, reqs[k]) })
+		if g.doc != nil {
+			// all requests above are answered; from here on strictly change, then request
+			g.changeAndFetch(rep, r, 2+r.IntN(3))
+		}
 		if !g.close() {
 			rep.Count("relay_wait_timeouts", 1)
 		}
@@ -787,9 +803,140 @@ func TestVerif_C20(t *testing.T) {
 	rep.Require(rep.Counter("upgrade_error_relay_entry_not_seen") == 0, "upgrade errors for which the relay's own logger saw no request: the 4xx may not come from the relay")
 	rep.Require(rep.Counter("documents_compared") >= int64(nGroups), "too few served documents compared")
 	rep.Require(rep.Counter("documents_round_tripped") >= int64(nDocs*9/10), "round trips not run")
-	rep.Require(rep.SetSize("kind_forms_in_values") >= 6, "not every kind-entry form generated")
-	rep.Require(rep.SetSize("kind_forms_in_texts") >= 6, "not every kind-entry text form generated")
+	rep.Require(rep.SetSize("kind_forms_in_values") >= 9, "not every kind-entry form generated")
+	rep.Require(rep.SetSize("kind_forms_in_texts") >= 8, "not every kind-entry text form generated")
+	rep.Require(rep.SetSize("served_kind_forms") >= 9, "not every kind-entry form occurred in a served document")
+	for _, c := range []string{"values_with_huge-single", "values_with_huge-pair-adjacent", "values_with_huge-pair", "texts_with_text-huge-pair-adjacent", "texts_with_text-huge-pair",
+		"served_with_huge-single", "served_with_huge-pair-adjacent", "served_with_huge-pair"} {
+		rep.Require(rep.Counter(c) >= 20, "too few documents counted as "+c)
+	}
+	rep.Require(rep.Counter("documents_compared_after_change") >= int64(nGroups), "too few documents fetched after a change of the configured value")
+	rep.Require(rep.SetSize("changed_fields") >= 10, "configuration changes did not reach enough fields")
 	rep.Require(rep.SetSize("greeting_text") >= 1, "greeting never observed")
+}
+
+func (g *c20Group) seenServed(rep *vk.Report) {
+	shape := c20DocShape(g.doc)
+	rep.Seen("served_doc_shape", shape)
+	for _, f := range strings.Split(shape[strings.Index(shape, "/")+1:], ",") {
+		if f != "" {
+			rep.Seen("served_kind_forms", f)
+			if strings.HasPrefix(f, "huge-") {
+				rep.Count("served_with_"+f, 1)
+			}
+		}
+	}
+}
+
+// c20Snapshot is a deep copy made without the code under test (reference writer, reference reader).
+func c20Snapshot(d *mocrelay.NIP11) *mocrelay.NIP11 {
+	t, _ := c20Text(rand.New(rand.NewPCG(3, 3)), d)
+	c, e := c20RefReadBytes([]byte(t))
+	if e != "" || c20DocDiff(d, c) != "" {
+		panic("C20 harness: reference writer and reader disagree: " + e + " " + c20DocDiff(d, c))
+	}
+	return c
+}
+
+// c20Change alters the configured value in place (same *NIP11) and tells which
+// fields were touched. No request is in flight while this runs.
+func c20Change(r *rand.Rand, d *mocrelay.NIP11) []string {
+	var touched []string
+	fresh := c20Doc(r)
+	dv, fv := reflect.ValueOf(d).Elem(), reflect.ValueOf(fresh).Elem()
+	for len(touched) == 0 {
+		// element-wise, deep changes first
+		if d.Retention != nil && len(d.Retention.Kinds) > 0 && r.IntN(2) == 0 {
+			k := d.Retention.Kinds[r.IntN(len(d.Retention.Kinds))]
+			switch r.IntN(3) {
+			case 0:
+				*k = *c20Kind(r)
+			case 1:
+				k.To = k.From
+			default:
+				k.From, k.To = k.To, k.From+1
+			}
+			touched = append(touched, "Retention.Kinds[i]")
+		}
+		if d.Limitation != nil && r.IntN(2) == 0 {
+			d.Limitation.MaxLimit = c20Int(r) + 1
+			d.Limitation.AuthRequired = !d.Limitation.AuthRequired
+			touched = append(touched, "Limitation.MaxLimit", "Limitation.AuthRequired")
+		}
+		if len(d.SupportedNIPs) > 0 && r.IntN(2) == 0 {
+			d.SupportedNIPs[0]++
+			d.SupportedNIPs = append(d.SupportedNIPs, r.IntN(100))
+			touched = append(touched, "SupportedNIPs[i]")
+		}
+		if d.Fees != nil && len(d.Fees.Publication) > 0 && r.IntN(2) == 0 {
+			d.Fees.Publication[0].Amount++
+			d.Fees.Publication[0].Kinds = c20Kinds(r)
+			touched = append(touched, "Fees.Publication[0]")
+		}
+		// whole exported fields taken from a fresh document (set, replaced or cleared)
+		for i := 0; i < dv.NumField(); i++ {
+			f := dv.Type().Field(i)
+			if !f.IsExported() || r.IntN(5) != 0 {
+				continue
+			}
+			if c20Diff(dv.Field(i), fv.Field(i), f.Name) == "" {
+				continue
+			}
+			dv.Field(i).Set(fv.Field(i))
+			touched = append(touched, f.Name)
+		}
+	}
+	return touched
+}
+
+// changeAndFetch: n times (change the configured value; fetch the document; compare
+// with the configuration as it is now).
+func (g *c20Group) changeAndFetch(rep *vk.Report, r *rand.Rand, n int) {
+	for step := 0; step < n; step++ {
+		before := c20Snapshot(g.doc)
+		touched := c20Change(r, g.doc)
+		if c20DocDiff(before, g.doc) == "" {
+			continue // the change cancelled itself
+		}
+		g.earlier = append(g.earlier, before)
+		g.DocText, _ = c20Text(rand.New(rand.NewPCG(1, 1)), g.doc)
+		g.Changes = append(g.Changes, strings.Join(touched, ","))
+		for _, f := range touched {
+			rep.Seen("changed_fields", f)
+		}
+		q := &c20Req{Case: fmt.Sprintf("g%d-change%d", g.Index, len(g.Changes)), Transport: vk.Pick(r, []string{"wire", "wire", "direct"}),
+			Method: vk.Pick(r, []string{"GET", "GET", "POST", "OPTIONS"}), Path: vk.Pick(r, c20Paths), Upgrade: "none", Accept: "exact", Header: http.Header{}}
+		q.Header.Set(c20CaseHeader, q.Case)
+		q.Header.Set("Accept", "application/nostr+json")
+		rep.Eval(1)
+		rep.Nontrivial(fmt.Sprintf("change|%s|%s|%s|nth=%d", g.Config, strings.Join(touched, ","), q.Transport, len(g.Changes)))
+		o := g.do(q)
+		if o.Err != "" {
+			rep.Inconclusive(fmt.Sprintf("request %s: transport error %s", q.Case, o.Err))
+			continue
+		}
+		fs := g.judgeDoc(q, o)
+		// a body that is an earlier configuration is named as such
+		if got, e := c20RefReadBytes([]byte(o.Body)); e == "" && c20DocDiff(g.doc, got) != "" {
+			for i := len(g.earlier) - 1; i >= 0; i-- {
+				if c20DocDiff(g.earlier[i], got) == "" {
+					var rest []c20Fault
+					for _, f := range fs {
+						if !strings.Contains(f.sig, "differs-from-configuration") {
+							rest = append(rest, f)
+						}
+					}
+					fs = append(rest, c20Fault{"nip11/stale-document-after-configuration-change", fmt.Sprintf("the configured NIP11 value was changed (%s) before this request, the answer is the document of %d change(s) ago", strings.Join(touched, ","), len(g.earlier)-i)})
+					break
+				}
+			}
+		}
+		for _, f := range fs {
+			rep.Violation(f.sig, f.what+" ["+g.Config+", "+q.Method+" "+q.Path+", after configuration change, "+q.Transport+"]", map[string]any{"group": g, "request": q, "observed": o, "previous_configuration": c20Flat(before)})
+		}
+		rep.Count("documents_compared_after_change", 1)
+		g.seenServed(rep)
+	}
 }
 
 // c20Flat renders a document without pointers for witnesses.
